@@ -313,6 +313,181 @@ def P18(m, R):
             R.check(not allp, f, act, desc_ + (' in all %d regions' % len(outcomes) if len(outcomes) > 1 else ''), ' | '.join(allp[:2]), construct=cons)
 
 
+@rule('P24', 'restart-completeness: when already-active settings are restarted at a point, the whole continuing set is restarted and it '
+             'lands below the point\'s own starters', floor=2)
+def P24(m, R):
+    ro = m.roles
+    # (a) apply_formatting, topmost=False
+    f = m.fn('AnsiString.apply_formatting')
+    cons = 'apply_formatting restart'
+    blk = next((n for n in f.body if isinstance(n, ast.If) and eval_guard(n.test, flag_valuation({'topmost': False})) is True
+                and eval_guard(n.test, flag_valuation({'topmost': True})) is False), None)
+    if blk is None:
+        R.viol(f, f.node, 'topmost=False has no restart block: continuing settings would stay below the new ones', construct=cons)
+    else:
+        from ..shapes import local_aliases, canon
+        al = local_aliases(f)
+        problems = []
+        acc = None
+        filt = None       # the selection condition of the restart list
+        src_ok = None
+        # form 1: acc = []; for s in ansi_settings_at(start): if <cond>: acc.append(s)
+        for s_ in blk.body:
+            if isinstance(s_, ast.Assign) and isinstance(s_.value, ast.List) and not s_.value.elts:
+                acc = norm(s_.targets[0])
+        lp = next((s_ for s_ in blk.body if isinstance(s_, ast.For)), None)
+        if acc is not None and lp is not None:
+            it = subst(lp.iter, {k: v for k, v in al.items()})
+            srcs = {norm(x.targets[0]): x.value for x in blk.body if isinstance(x, ast.Assign) and call_name(x.value) == 'ansi_settings_at'}
+            itv = srcs.get(norm(lp.iter), lp.iter)
+            src_ok = call_name(itv) == 'ansi_settings_at' and [norm(a) for a in itv.args] == ['start']
+            g = lp.body[0] if len(lp.body) == 1 and isinstance(lp.body[0], ast.If) else None
+            if g is not None and any(call_name(x) == 'append' and norm(x.func.value) == acc for x in ast.walk(g) if isinstance(x, ast.Call)):
+                filt = (g.test, norm(lp.target))
+        else:
+            # form 2: acc = [s for s in ansi_settings_at(start) if <cond>]
+            for s_ in blk.body:
+                if isinstance(s_, ast.Assign) and isinstance(s_.value, ast.ListComp) and len(s_.value.generators) == 1:
+                    g0 = s_.value.generators[0]
+                    itv = g0.iter
+                    srcs = {norm(x.targets[0]): x.value for x in blk.body if isinstance(x, ast.Assign) and call_name(x.value) == 'ansi_settings_at'}
+                    itv = srcs.get(norm(itv), itv)
+                    if call_name(itv) == 'ansi_settings_at' and norm(s_.value.elt) == norm(g0.target) and len(g0.ifs) == 1:
+                        acc = norm(s_.targets[0])
+                        src_ok = [norm(a) for a in itv.args] == ['start']
+                        filt = (g0.ifs[0], norm(g0.target))
+        if acc is None or filt is None:
+            R.undecided(f, blk, 'restart accumulation not recognised', construct=cons)
+        else:
+            if not src_ok:
+                problems.append('continuing settings are not taken from ansi_settings_at(start)')
+            t = canon(filt[0], al)
+            want = '__class__.%s(%s, %s.%s[start].%s) < 0' % (ro.IDFIND1, filt[1], f.self_name, ro.TABLE, ro.START)
+            if isinstance(filt[0], ast.BoolOp):
+                problems.append('restart filter %s selects a subset of the continuing settings' % short(filt[0]))
+            elif t != want and not (('.%s' % ro.START) in t and ' not in ' in t):
+                t2 = re.sub(r'%s\._\w+\(start\)' % re.escape(f.self_name), '%s.%s[start]' % (f.self_name, ro.TABLE), t)
+                if t2 != want:
+                    problems.append('restart filter is %s, expected: not among the starters of this point (by identity)' % short(filt[0]))
+            use = next((s_ for s_ in blk.body if isinstance(s_, ast.If) and norm(s_.test) == acc), None)
+            stmts = use.body if use is not None else list(blk.body)
+            stop_ok = False
+            start_how = None
+            new_list = next((norm(n.targets[0]) for n in f.walk() if isinstance(n, ast.Assign) and call_name(n.value) == ro.SCRUB), None)
+            local_env = {}
+            for s_ in stmts:
+                if isinstance(s_, ast.Assign) and isinstance(s_.targets[0], ast.Name):
+                    local_env[s_.targets[0].id] = s_.value
+                if isinstance(s_, ast.Expr) and call_name(s_.value) == 'insert_settings':
+                    a = [norm(x) for x in s_.value.args]
+                    kw = {k.arg: norm(k.value) for k in s_.value.keywords}
+                    if a[:2] == ['False', acc]:
+                        stop_ok = True
+                    elif a[:2] == ['True', acc]:
+                        tm = a[2] if len(a) > 2 else kw.get('topmost', 'True')
+                        start_how = 'append-on-top' if tm == 'True' else 'prepend-below-new'
+                elif isinstance(s_, ast.Assign) and isinstance(s_.targets[0], ast.Subscript) and canon(s_.targets[0].value, al).endswith('.' + ro.START) and norm(s_.value) == acc:
+                    sl = s_.targets[0].slice
+                    if isinstance(sl, ast.Slice):
+                        lo = norm(subst(sl.lower, local_env)) if sl.lower is not None else None
+                        hi = norm(subst(sl.upper, local_env)) if sl.upper is not None else None
+                        if lo == hi and lo == 'len(%s)' % new_list:
+                            start_how = 'slice-insert-above-new'
+                        else:
+                            start_how = 'slice %s:%s' % (lo, hi)
+                elif isinstance(s_, ast.Expr) and call_name(s_.value) == 'extend' and canon(s_.value.func.value, al).endswith('.' + ro.STOP) and norm(s_.value.args[0]) == acc:
+                    stop_ok = True
+            if not stop_ok:
+                problems.append('the restarted settings are not stopped at this point first')
+            if start_how == 'append-on-top':
+                problems.append('the restarted settings are appended on top of this point\'s START list: they override settings that *start* here '
+                                'although those had precedence before')
+            elif start_how == 'prepend-below-new':
+                problems.append('the restarted settings are inserted below the new settings, which then override them')
+            elif start_how is None:
+                problems.append('the continuing settings are stopped here but never restarted')
+            elif start_how != 'slice-insert-above-new':
+                if start_how.startswith('slice'):
+                    problems.append('the restarted settings are inserted at %s, expected directly above the new settings (position len(new settings))' % start_how)
+            R.check(not problems, f, blk, 'all continuing settings are stopped and re-inserted directly above the new ones, below this point\'s starters',
+                    '; '.join(problems), construct=cons)
+    # (b) remove_formatting at idx == end
+    f = m.fn('AnsiString.remove_formatting')
+    cons = 'remove_formatting restart'
+    loop = next((n for n in f.walk() if isinstance(n, ast.For) and call_name(n.iter) == ro.ITERATOR), None)
+    if loop is None:
+        raise AnalysisError('anchor vanished: scan loop of remove_formatting')
+    idx, point, active = [norm(x) for x in loop.target.elts]
+    # the statements that run for idx == end and not for an interior point, whatever the if / elif shape
+    Ltxt = 'len(%s.%s)' % (f.self_name, ro.TEXT)
+    extra = {'end != %s' % Ltxt: True, 'end == %s' % Ltxt: False, 'end < %s' % Ltxt: True}
+    for n_ in f.body:
+        if isinstance(n_, ast.Assign) and isinstance(n_.value, ast.List) and not n_.value.elts and isinstance(n_.targets[0], ast.Name):
+            extra[n_.targets[0].id] = True
+            extra['not ' + n_.targets[0].id] = False
+    ran = {}
+    try:
+        for region, rank in (('inside', 2), ('=end', 3)):
+            got = []
+            run_block(loop.body, merge_valuations(order_valuation({idx: rank, 'start': 1, 'end': 3}), flag_valuation({}, extra)), got.append)
+            ran[region] = got
+    except Undecided as ex:
+        R.undecided(f, loop, 'scan not interpreted: %s' % ex, construct=cons)
+        return
+    end_stmts = [s_ for s_ in ran['=end'] if not any(s_ is t_ for t_ in ran['inside'])]
+    if not end_stmts:
+        R.viol(f, loop, 'nothing is restarted at the end of the range: the removed settings stay off beyond it', construct=cons)
+        return
+    endblk = end_stmts[0]
+    problems = []
+    start_writes = []
+    stop_ext = []
+    for n in ast.walk(ast.Module(body=end_stmts, type_ignores=[])):
+        if isinstance(n, ast.AugAssign) and norm(n.target) == '%s.%s' % (point, ro.START):
+            start_writes.append(('augment', norm(n.value), n))
+        elif isinstance(n, ast.Assign) and norm(n.targets[0]) == '%s.%s' % (point, ro.START):
+            start_writes.append(('rebind', norm(n.value), n))
+        elif isinstance(n, ast.Call) and call_name(n) in ('extend', 'insert_settings') and ro.START in norm(n) and 'True' in norm(n):
+            start_writes.append(('augment', norm(n), n))
+        elif isinstance(n, ast.Call) and call_name(n) == 'extend' and norm(n.func.value) == '%s.%s' % (point, ro.START):
+            start_writes.append(('augment', norm(n.args[0]), n))
+        elif isinstance(n, ast.Call) and call_name(n) == 'extend' and norm(n.func.value) == '%s.%s' % (point, ro.STOP):
+            stop_ext.append(n)
+    if not start_writes:
+        problems.append('nothing is restarted at the end of the range: the removed settings stay off beyond it')
+    for kind, val, n in start_writes:
+        if kind == 'augment':
+            problems.append('the removed settings are appended to this point\'s START list (%s): they come back *above* every setting that continues '
+                            'through or starts at the end of the range, so the characters after the range change their displayed style' % short(n))
+        elif kind == 'rebind':
+            if val not in ('list(%s)' % active, '%s.copy()' % active, '%s[:]' % active):
+                problems.append('START is rebound to %s, expected a copy of the full active list (original order)' % val)
+            if not stop_ext:
+                problems.append('START is rebound to the full active list but the continuing settings are not stopped here first')
+            else:
+                c = stop_ext[0].args[0]
+                ok = isinstance(c, ast.ListComp) and norm(c.generators[0].iter) == active and norm(c.elt) == norm(c.generators[0].target)
+                if not ok:
+                    problems.append('the stop list is extended with %s, expected every continuing setting of the active list' % short(c))
+                else:
+                    # continuing = active, minus what starts at this very point, minus what was removed (both by identity)
+                    tv = norm(c.generators[0].target)
+                    excl = []
+                    for cond in c.generators[0].ifs:
+                        for part in (cond.values if isinstance(cond, ast.BoolOp) and isinstance(cond.op, ast.And) else [cond]):
+                            mm = re.match(r'^__class__\.%s\(%s, (.+)\) < 0$' % (re.escape(ro.IDFIND1), re.escape(tv)), norm(part))
+                            excl.append(mm.group(1) if mm else '?' + norm(part))
+                    acc_names = {norm(x.func.value) for x in ast.walk(f.node) if isinstance(x, ast.Call) and call_name(x) == 'append' and isinstance(x.func.value, ast.Name)}
+                    want_first = '%s.%s' % (point, ro.START)
+                    if want_first not in excl:
+                        problems.append('settings that start at this very point are stopped here as well (exclusions: %s)' % excl)
+                    rest = [e for e in excl if e != want_first]
+                    if len(rest) != 1 or rest[0] not in acc_names:
+                        problems.append('the stop list must leave out exactly the point\'s own starters and the removed settings (exclusions: %s)' % excl)
+    R.check(not problems, f, endblk, 'at the end of the range every continuing setting is stopped and the full active list restarted in its original order',
+            '; '.join(problems), construct=cons)
+
+
 # ----------------------------------------------------------------------------------------------------------------------
 def _while_progress(R, f, lp, cfg, cons, measure_var, measure_len, extra=None):
     """On every path head -> head the measure len(measure_len) - measure_var strictly decreases."""
